@@ -40,6 +40,8 @@ pub enum OV {
     Bits(Vec<Boolean<Fq>>),
     Bytes(Vec<UInt8<Fq>>),
     Lazy { steps: Vec<usize>, vals: Vec<OV> },
+    /// history on one variable: constraint counts after each step, and the values read (at the time of the read)
+    Hist { steps: Vec<usize>, reads: Vec<String> },
 }
 
 #[derive(Default)]
@@ -117,6 +119,7 @@ pub const GADGETS: &[&str] = &[
     "neg", "double", "double_in_place", "scalar_mul", "is_eq", "enforce_equal", "enforce_not_equal",
     "cond_enforce_equal", "cond_enforce_not_equal", "select", "new", "new_omit", "new_affine",
     "new_fq", "zero", "constant", "enforce_prime_order", "to_bits", "to_bytes", "lazy", "lazy.enc",
+    "hist", "hist.enc",
 ];
 
 macro_rules! el2 {
@@ -186,6 +189,40 @@ fn lazy_steps(cs: &Cs, v: ElementVar, ops: &str) -> SR<OV> {
         steps.push(cs.num_constraints());
     }
     Ok(OV::Lazy { steps, vals })
+}
+
+pub const HIST_OPS: &str = "ecvaAksSjdnpmqx";
+
+/// A history of wrapper operations on ONE `ElementVar` `v` (second operand: the variable `w` / the constant `eb`):
+///  e force element   c read compress_to_field()   v read value()
+///  a v += w (owned)  A v += &w   k v += eb (constant)      s v -= w   S v -= &w   j v -= eb
+///  d double_in_place n v = v.negate()   p v = v + w   m v = v - &w   q v = select(true, v, w)   x v = v.clone()
+fn hist_steps(cs: &Cs, mut v: ElementVar, w: ElementVar, eb: Element, ops: &str) -> SR<OV> {
+    let mut steps = vec![cs.num_constraints()];
+    let mut reads = vec![];
+    for ch in ops.chars() {
+        match ch {
+            'e' => {
+                let _ = <ElementVar as CurveVar<Element, Fq>>::negate(&v)?;
+            }
+            'c' => reads.push(format!("c:{}", val_fq(&v.compress_to_field()?))),
+            'v' => reads.push(format!("v:{}", val_el(&v))),
+            'a' => <ElementVar as AddAssign<ElementVar>>::add_assign(&mut v, w.clone()),
+            'A' => <ElementVar as AddAssign<&ElementVar>>::add_assign(&mut v, &w),
+            'k' => <ElementVar as AddAssign<Element>>::add_assign(&mut v, eb),
+            's' => <ElementVar as SubAssign<ElementVar>>::sub_assign(&mut v, w.clone()),
+            'S' => <ElementVar as SubAssign<&ElementVar>>::sub_assign(&mut v, &w),
+            'j' => <ElementVar as SubAssign<Element>>::sub_assign(&mut v, eb),
+            'd' => <ElementVar as CurveVar<Element, Fq>>::double_in_place(&mut v)?,
+            'n' => v = <ElementVar as CurveVar<Element, Fq>>::negate(&v)?,
+            'p' => v = <ElementVar as Add<ElementVar>>::add(v.clone(), w.clone()),
+            'm' => v = <ElementVar as Sub<&ElementVar>>::sub(v.clone(), &w),
+            'q' => v = ElementVar::conditionally_select(&Boolean::constant(true), &v, &w)?,
+            _ => v = v.clone(),
+        }
+        steps.push(cs.num_constraints());
+    }
+    Ok(OV::Hist { steps, reads })
 }
 
 fn build(name: &str, g: &mut Args) -> Result<Gad, Bad> {
@@ -375,6 +412,36 @@ fn build(name: &str, g: &mut Args) -> Result<Gad, Bad> {
                 lazy_steps(&cs, v, &ops)
             })
         }
+        "hist" => {
+            let mode = parse_mode(g.next()?)?;
+            let e = g.el()?;
+            let eb = g.el()?;
+            let ops = g.next().unwrap_or("").to_string();
+            if !ops.chars().all(|c| HIST_OPS.contains(c)) {
+                return Err(Bad::Input);
+            }
+            Box::new(move |cs: Cs, h: &Hints| -> SR<OV> {
+                h.arm();
+                let v = al_el(&cs, e, mode)?;
+                let w = al_el(&cs, eb, mode)?;
+                hist_steps(&cs, v, w, eb, &ops)
+            })
+        }
+        "hist.enc" => {
+            let mode = parse_mode(g.next()?)?;
+            let s = g.f::<Fq>()?;
+            let eb = g.el()?;
+            let ops = g.next().unwrap_or("").to_string();
+            if !ops.chars().all(|c| HIST_OPS.contains(c)) {
+                return Err(Bad::Input);
+            }
+            Box::new(move |cs: Cs, h: &Hints| -> SR<OV> {
+                h.arm();
+                let v = <ElementVar as AllocVar<Fq, Fq>>::new_variable(cs.clone(), || Ok(s), mode)?;
+                let w = al_el(&cs, eb, mode)?;
+                hist_steps(&cs, v, w, eb, &ops)
+            })
+        }
         _ => return Err(Bad::Unsupported),
     })
 }
@@ -473,6 +540,11 @@ fn render(ov: &OV, keyed: bool) -> String {
             let bytes: Option<Vec<u8>> = v.iter().map(|b| b.value().ok()).collect();
             format!("{}{}", k("val="), bytes.map(|b| bys(&b)).unwrap_or("ERR".to_string()))
         }
+        OV::Hist { steps, reads } => format!(
+            "steps={} reads={}",
+            steps.iter().map(|s| s.to_string()).collect::<Vec<_>>().join(","),
+            if reads.is_empty() { "-".to_string() } else { reads.join(";") }
+        ),
         OV::Lazy { steps, vals } => format!(
             "steps={} vals={}",
             steps.iter().map(|s| s.to_string()).collect::<Vec<_>>().join(","),
